@@ -1157,6 +1157,9 @@ func init() {
 		bt := x.Call.Signature().Results().At(0).Type().Underlying().(*types.Pointer).Elem()
 		b := c.allocStruct(st, bt)
 		buf := args[0].(*Term)
+		// The model hands out the written bytes in fresh memory. A builder started on a buffer with
+		// capacity writes into that buffer instead: outside the model, and a frame question.
+		c.oblige(st, "frame", c.f.Eq(c.f.SlCap(buf), c.f.Int(0)), pos, "cryptobyte.NewBuilder is given a buffer without capacity (the builder would otherwise write into the caller's buffer)")
 		c.store(st, c.ghostLV("BuilderBytes", b), c.sliceContent(st, SB, buf))
 		c.store(st, c.ghostLV("BuilderErr", b), c.f.False())
 		return b
